@@ -92,26 +92,25 @@ Proof. intros. eapply operand_upper_attained; eassumption. Qed.
 Print Assumptions C03_and_operand_upper_attained.
 
 (* the general statement (all three connectives, every arity, weights >= 0, any bias, alpha = 1): both ends of the new
-   interval of every positively weighted operand are attained by assignments satisfying every given bound.
+   interval of EVERY operand (also zero-weight ones, whose interval the step leaves alone) are attained by assignments
+   satisfying every given bound.
    Or and Implies follow from And by duality (HullDualProofs.v) *)
 Definition C03_operands_attained_statement : Prop :=
   forall c p y bs k, conn_wf c p (length bs) -> alpha p == 1 -> wf_bnd y -> ordered_all bs ->
-  (exists xs, feasible c p y bs xs) -> (k < length bs)%nat -> 0 < nth k (weights p) 0 ->
+  (exists xs, feasible c p y bs xs) -> (k < length bs)%nat ->
   (exists xs, feasible c p y bs xs /\ nth k xs 0 == lo (nth k (step_x c p y bs) unknown)) /\
   (exists xs, feasible c p y bs xs /\ nth k xs 0 == hi (nth k (step_x c p y bs) unknown)).
 Theorem C03_operands_attained : C03_operands_attained_statement.
 Proof.
-  intros c p y bs k (Ha & Hw & Hl & Hi) Hal Hy Hord [x0 Hf] Hk Hwk. destruct c.
-  - split; [eapply operand_lower_attained | eapply operand_upper_attained]; eassumption.
+  intros c p y bs k (Ha & Hw & Hl & Hi) Hal Hy Hord [x0 Hf] Hk. destruct c.
+  - eapply and_operand_attained; eassumption.
   - split; [eapply or_operand_lower_attained | eapply or_operand_upper_attained]; eassumption.
   - specialize (Hi eq_refl). destruct bs as [|b0 [|b1 [|? ?]]]; cbn [length] in Hi; try discriminate.
     destruct (weights p) as [|w0 [|w1 [|? ?]]] eqn:Hws; cbn [length] in Hl; try discriminate.
     inversion Hw as [|? ? H0 Hw']; subst. inversion Hw' as [|? ? H1 _]; subst.
     destruct Hf as [Hb Hf]. pose proof Hb as Hb'. inversion Hb' as [|? a0 ? r I0 Hb1]; subst. inversion Hb1 as [|? a1 ? r' I1 Hb2]; subst. inversion Hb2; subst.
     destruct (imp_operands_attained p w0 w1 Hws H0 H1 y Hy b0 b1 Hord a0 a1 (conj Hb Hf) Hal) as [K0 K1].
-    destruct k as [|[|k]]; cbn [length] in Hk; [|  | lia]; cbn [nth] in Hwk.
-    + apply K0; exact Hwk.
-    + apply K1; exact Hwk.
+    destruct k as [|[|k]]; cbn [length] in Hk; [exact K0 | exact K1 | lia].
 Qed.
 Print Assumptions C03_operands_attained.
 
